@@ -1,16 +1,764 @@
-//! C09 (component level) — not built yet.
+//! C09 (component level): `recovery::RttEstimator`, `recovery::loss::detect` and
+//! `recovery::pto::Pto` against a transcription of RFC 9002 §5, §6.1, §6.2 and Appendix A
+//! in integer nanoseconds (u128).
+//!
+//! The estimator is compared step by step: the expected next state is computed from the
+//! estimator's own previous state (read through its getters) and the op, so truncation does
+//! not accumulate in the comparison; the range invariants of the property are tracked
+//! independently from the generated samples.
 
-use vcore::{Property, SubCheck};
+use core::task::Poll;
+use core::time::Duration;
+use proptest::prelude::*;
+use s2n_quic_core::{
+    packet::number::{PacketNumber, PacketNumberSpace},
+    recovery::{loss, Pto, RttEstimator},
+    time::{timer::Provider as _, Timestamp},
+    transport::parameters::MaxAckDelay,
+    varint::VarInt,
+};
+use serde::{Deserialize, Serialize};
+use vcore::{ensure_that, fail, CaseResult, Obs, PropCheck, Property, SubCheck, Tier};
+
+const MAX_PN: u64 = (1 << 62) - 1;
+const US: u64 = 1_000;
+const MS: u64 = 1_000_000;
+const SEC: u64 = 1_000_000_000;
+/// RFC 9002 §6.1.2 kGranularity (recommended value, the one the property names)
+const K_GRANULARITY_NS: u64 = MS;
+/// RFC 9002 §6.1.1 kPacketThreshold (the property: "at least three packet numbers older")
+const K_PACKET_THRESHOLD: u64 = 3;
+/// the estimator's documented floor for a sample (`rtt_estimator::MIN_RTT`)
+const MIN_SAMPLE_NS: u64 = US;
+/// worst case accumulated downward drift of `smoothed_rtt` caused by the divide-first
+/// `weighted_average` (s' >= (7s + A − 56)/8  ⇒  s >= lo − 56 is inductive)
+const SRTT_DRIFT_NS: u64 = 56;
+
+fn space_of(s: u8) -> PacketNumberSpace {
+    match s % 3 {
+        0 => PacketNumberSpace::Initial,
+        1 => PacketNumberSpace::Handshake,
+        _ => PacketNumberSpace::ApplicationData,
+    }
+}
+
+fn ts(micros: u64) -> Timestamp {
+    // the harness is the time source here
+    unsafe { Timestamp::from_duration(Duration::from_micros(micros.max(1))) }
+}
+
+fn ts_micros(t: Timestamp) -> u64 {
+    unsafe { t.as_duration().as_micros() as u64 }
+}
+
+fn ns(d: Duration) -> u64 {
+    d.as_nanos() as u64
+}
+
+// ---------------------------------------------------------------------------------------
+// sub-check 1: RttEstimator
+
+#[derive(Clone, Copy, Debug, Hash, PartialEq, Eq, Serialize, Deserialize)]
+pub enum Sample {
+    /// absolute, nanoseconds
+    Abs(u64),
+    /// `min_rtt + effective ack delay + delta` ns (the boundary of the ack-delay adjustment)
+    AtAdjustBoundary(i32),
+    /// `min_rtt + delta` ns
+    NearMin(i32),
+    /// `smoothed_rtt + delta` ns
+    NearSmoothed(i32),
+}
+
+#[derive(Clone, Copy, Debug, Hash, PartialEq, Eq, Serialize, Deserialize)]
+pub enum RttOp {
+    Update { sample: Sample, ack_delay_ns: u64, confirmed: bool, space: u8, dt_us: u32 },
+    MaxAckDelay { ms: u16 },
+    PersistentCongestion,
+    NewPath { initial_rtt_us: u32 },
+    Query { backoff: u32, space: u8 },
+}
+
+#[derive(Clone, Debug, Hash, PartialEq, Eq, Serialize, Deserialize)]
+pub struct RttCase {
+    pub initial_rtt_us: u32,
+    pub ops: Vec<RttOp>,
+}
+
+/// `got` is an admissible result of `((w−1)·a + b) / w`: never above the exact value and less
+/// than `w` ns below it (s2n divides before multiplying: "it's more accurate to multiply first
+/// but it risks overflow so we divide first"; loss < (w−1) + 1 ns).
+fn wavg_ok(a: u64, b: u64, w: u64, got: u64) -> bool {
+    let exact_num = (w as u128 - 1) * a as u128 + b as u128; // = exact · w
+    let got_num = got as u128 * w as u128;
+    got_num <= exact_num && exact_num - got_num < (w as u128) * (w as u128)
+}
+
+#[derive(Clone, Copy, Debug)]
+struct Snapshot {
+    latest: u64,
+    min: u64,
+    srtt: u64,
+    rttvar: u64,
+    mad: u64,
+}
+
+fn snap(e: &RttEstimator) -> Snapshot {
+    Snapshot { latest: ns(e.latest_rtt()), min: ns(e.min_rtt()), srtt: ns(e.smoothed_rtt()), rttvar: ns(e.rttvar()), mad: ns(e.max_ack_delay()) }
+}
+
+/// range of the samples observed since the estimator was (re)initialised
+#[derive(Clone, Copy, Debug)]
+struct Seen {
+    /// a first sample is pending (RFC 9002 §5.2/§5.3: the next sample initialises everything)
+    awaiting_first: bool,
+    /// any sample since creation / new path (until then the initial RTT is reported)
+    any_sample: bool,
+    sample_min: u64,
+    adj_lo: u64,
+    adj_hi: u64,
+    /// bound for rttvar: max(first/2, spread)
+    var_hi: u64,
+}
+
+fn check_queries(step: usize, e: &RttEstimator, backoff: u32, space: PacketNumberSpace) -> CaseResult {
+    let s = snap(e);
+    // RFC 9002 §6.2.1: PTO = smoothed_rtt + max(4*rttvar, kGranularity) + max_ack_delay
+    // (max_ack_delay = 0 for Initial and Handshake), times 2^pto_count.
+    let exact_base: u128 = s.srtt as u128 + (4 * s.rttvar as u128).max(K_GRANULARITY_NS as u128) + if space.is_application_data() { s.mad as u128 } else { 0 };
+    let base = e.pto_period(1, space).as_nanos();
+    // s2n computes in whole microseconds ("We operate on microseconds rather than `Duration` to
+    // improve efficiency"): smoothed_rtt loses < 1 µs, 4·rttvar loses < 4 µs.
+    ensure_that!(
+        base <= exact_base && exact_base - base < 5 * US as u128,
+        "rtt:pto-period",
+        "step {step}: pto_period(1, {space:?}) = {base} ns, RFC 9002 §6.2.1 gives {exact_base} ns (srtt {} rttvar {} max_ack_delay {})",
+        s.srtt, s.rttvar, s.mad
+    );
+    ensure_that!(base >= K_GRANULARITY_NS as u128, "rtt:pto-below-granularity", "step {step}: pto_period(1, {space:?}) = {base} ns < kGranularity");
+    let p = e.pto_period(backoff, space).as_nanos();
+    ensure_that!(p >= K_GRANULARITY_NS as u128, "rtt:pto-below-granularity", "step {step}: pto_period({backoff}, {space:?}) = {p} ns < kGranularity");
+    if backoff >= 1 {
+        ensure_that!(p == base * backoff as u128, "rtt:pto-backoff", "step {step}: pto_period({backoff}, {space:?}) = {p} ns, expected {backoff} x {base}");
+        if let Some(b2) = backoff.checked_mul(2) {
+            let p2 = e.pto_period(b2, space).as_nanos();
+            ensure_that!(p2 == 2 * p, "rtt:pto-doubling", "step {step}: pto_period({b2}) = {p2} ns is not twice pto_period({backoff}) = {p} ns ({space:?})");
+        }
+    }
+    Ok(())
+}
+
+fn check_thresholds(step: usize, e: &RttEstimator) -> CaseResult {
+    let s = snap(e);
+    // RFC 9002 §6.1.2: max(kTimeThreshold * max(smoothed_rtt, latest_rtt), kGranularity), kTimeThreshold = 9/8
+    let t = s.srtt.max(s.latest) as u128;
+    let expect = (9 * t / 8).max(K_GRANULARITY_NS as u128);
+    let got = ns(e.loss_time_threshold()) as u128;
+    ensure_that!(got == expect, "rtt:loss-time-threshold", "step {step}: loss_time_threshold {got} ns, expected max(9/8 x max({}, {}), 1 ms) = {expect} ns", s.srtt, s.latest);
+    Ok(())
+}
+
+fn rtt_oracle(c: &RttCase, obs: &mut Obs) -> CaseResult {
+    let init = (c.initial_rtt_us as u64).max(1) * US;
+    let mut e = RttEstimator::new(Duration::from_nanos(init));
+    let mut seen = Seen { awaiting_first: true, any_sample: false, sample_min: init, adj_lo: init, adj_hi: init, var_hi: init / 2 };
+    let mut now_us: u64 = 1_000;
+    let (mut saw_first, mut saw_skip, mut saw_backoff, mut saw_adjust) = (false, false, false, false);
+
+    {
+        let s = snap(&e);
+        ensure_that!(s.srtt == init && s.rttvar == init / 2 && s.latest == init && s.min == init && s.mad == 0, "rtt:initial", "new({init} ns): {s:?} (RFC 9002 §5.3: smoothed_rtt = kInitialRtt, rttvar = kInitialRtt / 2)");
+    }
+
+    for (step, op) in c.ops.iter().enumerate() {
+        let prev = snap(&e);
+        match *op {
+            RttOp::MaxAckDelay { ms } => {
+                let ms = (ms as u64).min((1 << 14) - 1);
+                e.on_max_ack_delay(MaxAckDelay::try_from(Duration::from_millis(ms)).expect("harness: valid max_ack_delay"));
+                let s = snap(&e);
+                ensure_that!(s.mad == ms * MS, "rtt:max-ack-delay", "step {step}: max_ack_delay {} after on_max_ack_delay({ms} ms)", s.mad);
+                ensure_that!((s.latest, s.min, s.srtt, s.rttvar) == (prev.latest, prev.min, prev.srtt, prev.rttvar), "rtt:max-ack-delay", "step {step}: on_max_ack_delay changed the estimates");
+            }
+            RttOp::PersistentCongestion => {
+                // RFC 9002 §5.2: "Endpoints SHOULD set the min_rtt to the newest RTT sample after
+                // persistent congestion is established"; s2n re-initialises smoothed_rtt/rttvar from
+                // that sample as well (§5.2 last paragraph permits resetting both).
+                e.on_persistent_congestion();
+                let s = snap(&e);
+                ensure_that!((s.latest, s.min, s.srtt, s.rttvar, s.mad) == (prev.latest, prev.min, prev.srtt, prev.rttvar, prev.mad), "rtt:persistent-congestion", "step {step}: on_persistent_congestion changed the estimates immediately");
+                seen.awaiting_first = true;
+            }
+            RttOp::NewPath { initial_rtt_us } => {
+                let init = (initial_rtt_us as u64).max(1) * US;
+                e = e.for_new_path(Duration::from_nanos(init));
+                let s = snap(&e);
+                ensure_that!(s.srtt == init && s.rttvar == init / 2 && s.latest == init && s.min == init && s.mad == prev.mad, "rtt:initial", "step {step}: for_new_path({init} ns): {s:?}");
+                seen = Seen { awaiting_first: true, any_sample: false, sample_min: init, adj_lo: init, adj_hi: init, var_hi: init / 2 };
+            }
+            RttOp::Query { backoff, space } => {
+                check_queries(step, &e, backoff, space_of(space))?;
+                if backoff >= 2 {
+                    saw_backoff = true;
+                }
+                obs.class_if(backoff == 0, "query-backoff-0");
+            }
+            RttOp::Update { sample, ack_delay_ns, confirmed, space, dt_us } => {
+                let space = space_of(space);
+                now_us += dt_us as u64;
+                let now = ts(now_us);
+                let ack_delay = ack_delay_ns.min(20 * SEC);
+                // s2n's own effective delay, used only to aim the generated sample at the boundary
+                let aim_delay = if space.is_initial() { 0 } else if confirmed { ack_delay.min(prev.mad) } else { ack_delay };
+                let rel = |base: u64, d: i32| -> u64 { if d >= 0 { base.saturating_add(d as u64) } else { base.saturating_sub((-(d as i64)) as u64) } };
+                let sample_ns = match sample {
+                    Sample::Abs(v) => v,
+                    Sample::AtAdjustBoundary(d) => rel(prev.min + aim_delay, d),
+                    Sample::NearMin(d) => rel(prev.min, d),
+                    Sample::NearSmoothed(d) => rel(prev.srtt, d),
+                }
+                .min(100 * SEC);
+
+                e.update_rtt(Duration::from_nanos(ack_delay), Duration::from_nanos(sample_ns), now, confirmed, space);
+                let s = snap(&e);
+
+                // latest_rtt: the sample, floored at 1 µs as the estimator documents (MIN_RTT)
+                let latest = sample_ns.max(MIN_SAMPLE_NS);
+                ensure_that!(s.latest == latest, "rtt:latest", "step {step} {op:?}: latest_rtt {} after a sample of {sample_ns} ns", s.latest);
+                ensure_that!(s.mad == prev.mad, "rtt:max-ack-delay", "step {step}: update_rtt changed max_ack_delay");
+
+                if seen.awaiting_first {
+                    // RFC 9002 §5.2: min_rtt MUST be set to the latest_rtt on the first RTT sample.
+                    // §5.3: smoothed_rtt = latest_rtt, rttvar = latest_rtt / 2
+                    ensure_that!(s.min == latest, "rtt:first-min", "step {step} {op:?}: min_rtt {} after the first sample {latest}", s.min);
+                    ensure_that!(s.srtt == latest, "rtt:first-smoothed", "step {step} {op:?}: smoothed_rtt {} after the first sample {latest}", s.srtt);
+                    ensure_that!(s.rttvar == latest / 2, "rtt:first-rttvar", "step {step} {op:?}: rttvar {} after the first sample {latest}", s.rttvar);
+                    ensure_that!(e.first_rtt_sample() == Some(now), "rtt:first-timestamp", "step {step}: first_rtt_sample {:?}, expected {now:?}", e.first_rtt_sample());
+                    seen = Seen { awaiting_first: false, any_sample: true, sample_min: latest, adj_lo: latest, adj_hi: latest, var_hi: latest / 2 };
+                    saw_first = true;
+                    obs.class("first-sample");
+                } else {
+                    // §5.2: min_rtt MUST be set to the lesser of min_rtt and latest_rtt on all other samples
+                    let min = prev.min.min(latest);
+                    ensure_that!(s.min == min, "rtt:min", "step {step} {op:?}: min_rtt {} expected min({}, {latest})", s.min, prev.min);
+                    seen.sample_min = seen.sample_min.min(latest);
+
+                    // §5.3 / A.7: the admissible acknowledgement delays
+                    let mut delays: Vec<u64> = vec![];
+                    if confirmed {
+                        // MUST use the lesser of the acknowledgement delay and max_ack_delay after confirmation
+                        delays.push(ack_delay.min(prev.mad));
+                    } else {
+                        // SHOULD ignore max_ack_delay until the handshake is confirmed
+                        delays.push(ack_delay);
+                        delays.push(ack_delay.min(prev.mad));
+                    }
+                    if space.is_initial() {
+                        // MAY ignore the acknowledgment delay for Initial packets
+                        delays.push(0);
+                    }
+                    // the admissible outcomes: Some(adjusted_rtt) or None = sample ignored
+                    let mut outcomes: Vec<(Option<u64>, &'static str)> = vec![];
+                    for d in delays {
+                        let bound = min as u128 + d as u128;
+                        if (latest as u128) > bound {
+                            outcomes.push((Some(latest - d), "adjusted-by-ack-delay"));
+                        } else if (latest as u128) == bound {
+                            // A.7 subtracts (`latest_rtt >= min_rtt + ack_delay`), §5.3 only forbids
+                            // subtracting when the result is *smaller* than min_rtt: both are accepted.
+                            outcomes.push((Some(latest - d), "adjusted-by-ack-delay"));
+                            outcomes.push((Some(latest), "boundary-not-adjusted"));
+                            if !confirmed {
+                                // s2n's skip rule (`min_rtt + ack_delay < latest_rtt` else return) also drops the
+                                // sample at equality; no MUST is involved, the estimates stay within range.
+                                outcomes.push((None, "ignored-unconfirmed-at-boundary"));
+                            }
+                        } else {
+                            // MUST NOT subtract the acknowledgement delay if the result is smaller than min_rtt
+                            outcomes.push((Some(latest), "ack-delay-skipped"));
+                            if !confirmed {
+                                // "prior to handshake confirmation, an endpoint MAY ignore RTT samples if adjusting
+                                // the RTT sample for acknowledgement delay causes the sample to be less than the min_rtt"
+                                outcomes.push((None, "ignored-unconfirmed"));
+                            }
+                        }
+                    }
+                    let mut matched: Option<(Option<u64>, &'static str)> = None;
+                    for (o, name) in &outcomes {
+                        let ok = match o {
+                            None => s.srtt == prev.srtt && s.rttvar == prev.rttvar,
+                            Some(adj) => {
+                                // A.7 (and erratum 7539 for §5.3): rttvar first, with the *old* smoothed_rtt
+                                //   rttvar = 3/4 * rttvar + 1/4 * abs(smoothed_rtt - adjusted_rtt)
+                                //   smoothed_rtt = 7/8 * smoothed_rtt + 1/8 * adjusted_rtt
+                                let var_sample = prev.srtt.abs_diff(*adj);
+                                wavg_ok(prev.rttvar, var_sample, 4, s.rttvar) && wavg_ok(prev.srtt, *adj, 8, s.srtt)
+                            }
+                        };
+                        if ok {
+                            matched = Some((*o, name));
+                            break;
+                        }
+                    }
+                    let Some((used, name)) = matched else {
+                        fail!(
+                            "rtt:update",
+                            "step {step} {op:?} (sample {latest} ns, ack_delay {ack_delay} ns, confirmed {confirmed}, {space:?}): from {prev:?} to {s:?}; RFC 9002 §5.3/A.7 admits {outcomes:?} (adjusted_rtt or None = ignored), tolerance = truncation of the weighted average (< 8 ns)"
+                        );
+                    };
+                    obs.class(name);
+                    if matches!(name, "ack-delay-skipped" | "ignored-unconfirmed") {
+                        saw_skip = true;
+                    }
+                    if name == "adjusted-by-ack-delay" && used != Some(latest) {
+                        saw_adjust = true;
+                    }
+                    if let Some(adj) = used {
+                        seen.adj_lo = seen.adj_lo.min(adj);
+                        seen.adj_hi = seen.adj_hi.max(adj);
+                        seen.var_hi = seen.var_hi.max(seen.adj_hi - seen.adj_lo + SRTT_DRIFT_NS);
+                    }
+                }
+            }
+        }
+
+        // invariants of the property after every op
+        let s = snap(&e);
+        if seen.any_sample {
+            ensure_that!(s.min == seen.sample_min || seen.awaiting_first, "rtt:min-of-samples", "step {step} {op:?}: min_rtt {} but the smallest sample so far is {}", s.min, seen.sample_min);
+            ensure_that!(s.min <= s.latest || seen.awaiting_first, "rtt:min-above-latest", "step {step}: min_rtt {} > latest_rtt {}", s.min, s.latest);
+        }
+        ensure_that!(
+            s.srtt + SRTT_DRIFT_NS >= seen.adj_lo && s.srtt <= seen.adj_hi,
+            "rtt:smoothed-out-of-range",
+            "step {step} {op:?}: smoothed_rtt {} outside the range [{}, {}] of the (adjusted) samples seen",
+            s.srtt, seen.adj_lo, seen.adj_hi
+        );
+        ensure_that!(s.rttvar <= seen.var_hi, "rtt:rttvar-out-of-range", "step {step} {op:?}: rttvar {} exceeds max(first sample / 2, spread of the samples + drift) = {}", s.rttvar, seen.var_hi);
+        check_thresholds(step, &e)?;
+        check_queries(step, &e, 1, PacketNumberSpace::ApplicationData)?;
+    }
+    obs.units = c.ops.len() as u64;
+    obs.nontrivial(saw_first && saw_skip && saw_backoff);
+    obs.class_if(saw_adjust, "seq-with-adjustment");
+    obs.class_if(saw_skip, "seq-with-skip");
+    obs.class_if(saw_backoff, "seq-with-backoff>=2");
+    Ok(())
+}
+
+fn sample_abs() -> impl Strategy<Value = u64> {
+    prop_oneof![
+        // around the 1 ms granularity and its 8/9 (where 9/8·rtt crosses 1 ms)
+        3 => (0u64..=40).prop_map(|k| MS + k * 50 - 1000),
+        2 => (0u64..=40).prop_map(|k| MS * 8 / 9 + k * 10 - 200),
+        // the documented 1 µs floor and below
+        2 => 0u64..3 * US,
+        3 => US..50 * MS,
+        3 => (1u64..500).prop_map(|ms| ms * MS),
+        2 => US..10 * SEC,
+        1 => (0u64..8).prop_map(|k| 10 * SEC - k),
+    ]
+}
+
+fn ack_delay_strategy() -> impl Strategy<Value = u64> {
+    prop_oneof![
+        3 => Just(0u64),
+        3 => (0u64..60).prop_map(|ms| ms * MS),
+        2 => (0u64..30_000).prop_map(|us| us * US),
+        1 => 0u64..SEC,
+        1 => (0u64..4).prop_map(|k| SEC - k * US),
+    ]
+}
+
+fn backoff_strategy() -> impl Strategy<Value = u32> {
+    prop_oneof![
+        4 => (0u32..12).prop_map(|k| 1 << k),
+        2 => (0u32..31).prop_map(|k| 1 << k),
+        2 => 1u32..100,
+        1 => Just(0u32),
+        1 => any::<u32>(),
+    ]
+}
+
+fn rtt_op_strategy() -> impl Strategy<Value = RttOp> {
+    let sample = prop_oneof![
+        6 => sample_abs().prop_map(Sample::Abs),
+        4 => prop_oneof![Just(0i32), Just(1), Just(-1), -20i32..20, -2_000_000i32..2_000_000].prop_map(Sample::AtAdjustBoundary),
+        2 => prop_oneof![Just(0i32), -10i32..10, -100_000i32..100_000].prop_map(Sample::NearMin),
+        2 => prop_oneof![Just(0i32), -10i32..10, -3_000_000i32..3_000_000].prop_map(Sample::NearSmoothed),
+    ];
+    prop_oneof![
+        14 => (sample, ack_delay_strategy(), prop::bool::weighted(0.6), 0u8..3, prop_oneof![Just(0u32), 0u32..100_000]).prop_map(|(sample, ack_delay_ns, confirmed, space, dt_us)| RttOp::Update { sample, ack_delay_ns, confirmed, space, dt_us }),
+        2 => prop_oneof![Just(0u16), Just(25), 0u16..100, 0u16..16384].prop_map(|ms| RttOp::MaxAckDelay { ms }),
+        1 => Just(RttOp::PersistentCongestion),
+        1 => prop_oneof![Just(333_000u32), 1u32..2_000_000].prop_map(|initial_rtt_us| RttOp::NewPath { initial_rtt_us }),
+        4 => (backoff_strategy(), 0u8..3).prop_map(|(backoff, space)| RttOp::Query { backoff, space }),
+    ]
+}
+
+fn rtt_strategy(_t: Tier) -> impl Strategy<Value = RttCase> {
+    (prop_oneof![Just(333_000u32), 1u32..2_000_000, Just(1u32)], prop::collection::vec(rtt_op_strategy(), 1..50)).prop_map(|(initial_rtt_us, ops)| RttCase { initial_rtt_us, ops })
+}
+
+// ---------------------------------------------------------------------------------------
+// sub-check 2: loss::detect
+
+#[derive(Clone, Debug, Hash, PartialEq, Eq, Serialize, Deserialize)]
+pub struct LossCase {
+    pub space: u8,
+    pub pn: u64,
+    /// largest_acked = pn + dist, dist >= 1 (`detect` documents that it must only be called for
+    /// packets sent before the largest acknowledged one)
+    pub dist: u64,
+    pub time_sent_us: u64,
+    pub threshold_ns: u64,
+    /// now = time_sent + threshold (rounded down to µs) + now_rel_us, floored at time_sent
+    pub now_rel_us: i64,
+    /// None = s2n's own `K_PACKET_THRESHOLD` is passed (as the recovery manager does) and the
+    /// oracle uses the RFC's 3; Some(k) = k is passed and used
+    pub pkt_threshold: Option<u64>,
+}
+
+fn loss_oracle(c: &LossCase, obs: &mut Obs) -> CaseResult {
+    let space = space_of(c.space);
+    let dist = c.dist.max(1);
+    let pn = c.pn.min(MAX_PN - dist.min(MAX_PN));
+    let la = pn.saturating_add(dist).min(MAX_PN);
+    let dist = la - pn;
+    if dist == 0 {
+        return Ok(());
+    }
+    let time_sent_us = c.time_sent_us.max(1);
+    let thr = c.threshold_ns;
+    let deadline_ns: u128 = time_sent_us as u128 * 1000 + thr as u128; // time_sent + loss_delay
+    let deadline_us = (deadline_ns / 1000) as u64;
+    let now_us = if c.now_rel_us >= 0 { deadline_us.saturating_add(c.now_rel_us as u64) } else { deadline_us.saturating_sub(c.now_rel_us.unsigned_abs()) }.max(time_sent_us);
+    let now_ns: u128 = now_us as u128 * 1000;
+    let (k_passed, k_oracle) = match c.pkt_threshold {
+        None => (loss::K_PACKET_THRESHOLD, K_PACKET_THRESHOLD),
+        Some(k) => (k, k),
+    };
+
+    // RFC 9002 A.10 DetectAndRemoveLostPackets:
+    //   lost_send_time = now() - loss_delay
+    //   if (unacked.time_sent <= lost_send_time || largest_acked >= unacked.packet_number + kPacketThreshold): lost
+    //   else: loss_time = min(loss_time, unacked.time_sent + loss_delay)
+    let by_time = deadline_ns <= now_ns;
+    let by_pn = la as u128 >= pn as u128 + k_oracle as u128;
+    let lost_rfc = by_time || by_pn;
+
+    let mk = |v: u64| -> PacketNumber { space.new_packet_number(VarInt::new(v).unwrap()) };
+    let got = loss::detect(Duration::from_nanos(thr), ts(time_sent_us), k_passed, mk(pn), mk(la), ts(now_us));
+
+    let pn_edge = (dist as i128 - k_oracle as i128).abs() <= 1;
+    let time_edge = (now_ns as i128 - deadline_ns as i128).abs() <= 1000;
+    obs.nontrivial(pn_edge || time_edge);
+    obs.class_if(pn_edge, "pn-threshold±1");
+    obs.class_if(time_edge, "time-threshold±1us");
+    obs.class_if(by_time && !by_pn, "rfc-lost-by-time");
+    obs.class_if(by_pn && !by_time, "rfc-lost-by-pn");
+    obs.class_if(!lost_rfc, "rfc-not-lost");
+    obs.class_if(c.pkt_threshold.is_none(), "s2n-K_PACKET_THRESHOLD");
+
+    match got {
+        loss::Outcome::Lost => {
+            if !lost_rfc {
+                let early_ns = deadline_ns - now_ns;
+                if early_ns < K_GRANULARITY_NS as u128 {
+                    // `Timestamp::has_elapsed` treats a deadline less than kGranularity in the future as
+                    // elapsed; for loss detection this declares packets lost up to 1 ms before the time
+                    // threshold (so the effective threshold can be ~0, below kGranularity)
+                    fail!(
+                        "c09:lost-before-time-threshold-within-granularity",
+                        "pn {pn}, largest_acked {la} (distance {dist} < {k_oracle}), sent at {time_sent_us} us, time threshold {thr} ns, now {now_us} us: declared Lost {early_ns} ns before the time threshold is reached (sent only {} ns ago); RFC 9002 §6.1/A.10: lost iff time_sent <= now - loss_delay or largest_acked >= pn + kPacketThreshold",
+                        now_ns - time_sent_us as u128 * 1000
+                    );
+                }
+                fail!(
+                    "loss-detect:lost-too-early",
+                    "pn {pn}, largest_acked {la} (distance {dist}, packet threshold {k_oracle}), sent at {time_sent_us} us, time threshold {thr} ns, now {now_us} us: declared Lost {early_ns} ns before the time threshold and below the packet threshold"
+                );
+            }
+        }
+        loss::Outcome::NotLostYet { lost_time } => {
+            ensure_that!(
+                !lost_rfc,
+                "loss-detect:not-declared-lost",
+                "pn {pn}, largest_acked {la} (distance {dist}, packet threshold {k_oracle}), sent at {time_sent_us} us, time threshold {thr} ns, now {now_us} us: NotLostYet although RFC 9002 A.10 declares it lost (by_time {by_time}, by_pn {by_pn})"
+            );
+            // loss_time = time_sent + loss_delay, at the 1 µs resolution of `Timestamp`
+            let lt = ts_micros(lost_time) as u128 * 1000;
+            ensure_that!(lt <= deadline_ns && deadline_ns - lt < 1000, "loss-detect:loss-time", "pn {pn} sent at {time_sent_us} us, threshold {thr} ns: loss time {} us, expected time_sent + threshold = {deadline_ns} ns", ts_micros(lost_time));
+        }
+    }
+    Ok(())
+}
+
+fn loss_strategy(_t: Tier) -> impl Strategy<Value = LossCase> {
+    let dist = prop_oneof![
+        5 => 1u64..=2,
+        4 => 3u64..=4,
+        1 => 1u64..40,
+        1 => 1u64..=MAX_PN,
+    ];
+    let thr = prop_oneof![
+        3 => Just(MS),
+        // 9/8 of round RTTs
+        3 => (1u64..400).prop_map(|ms| 9 * ms * MS / 8),
+        2 => MS..3 * SEC,
+        1 => (0u64..2000).prop_map(|k| MS + k),
+        1 => 0u64..MS,
+    ];
+    let now_rel = prop_oneof![
+        5 => -3i64..=3,
+        // around one granularity before the threshold
+        3 => -1003i64..=-997,
+        2 => -5_000i64..5_000,
+        2 => -2_000_000i64..2_000_000,
+        1 => Just(i64::MIN / 2),
+    ];
+    (
+        0u8..3,
+        prop_oneof![3 => 0u64..1000, 1 => 0u64..=MAX_PN, 1 => (0u64..10).prop_map(|k| MAX_PN - k)],
+        dist,
+        prop_oneof![2 => 1u64..5_000_000, 1 => 1u64..(1 << 50)],
+        thr,
+        now_rel,
+        prop_oneof![8 => Just(None), 2 => (1u64..10).prop_map(Some)],
+    )
+        .prop_map(|(space, pn, dist, time_sent_us, threshold_ns, now_rel_us, pkt_threshold)| LossCase { space, pn, dist, time_sent_us, threshold_ns, now_rel_us, pkt_threshold })
+}
+
+// ---------------------------------------------------------------------------------------
+// sub-check 3: Pto (timer + probe count) driven the way the recovery manager drives it
+
+#[derive(Clone, Copy, Debug, Hash, PartialEq, Eq, Serialize, Deserialize)]
+pub enum PtoOp {
+    /// a new RTT sample arrives (changes the base period)
+    Rtt { sample_us: u32, ack_delay_us: u32 },
+    /// ack-eliciting packet sent / acknowledged: PTO backoff is reset when `acked`, timer re-armed from now
+    Arm { acked: bool },
+    /// time passes; `to_deadline` jumps relative to the armed deadline instead
+    Advance { us: u32 },
+    AdvanceToDeadline { rel_us: i32 },
+    /// the connection's timers fire: `on_timeout(packets_in_flight, now)`
+    Timeout { in_flight: bool },
+    /// one probe packet is written
+    TransmitOnce,
+    Cancel,
+    ForceTransmit,
+}
+
+#[derive(Clone, Debug, Hash, PartialEq, Eq, Serialize, Deserialize)]
+pub struct PtoCase {
+    pub space: u8,
+    pub max_ack_delay_ms: u16,
+    pub ops: Vec<PtoOp>,
+}
+
+fn pto_oracle(c: &PtoCase, obs: &mut Obs) -> CaseResult {
+    let space = space_of(c.space);
+    let mut rtt = RttEstimator::default();
+    rtt.on_max_ack_delay(MaxAckDelay::try_from(Duration::from_millis((c.max_ack_delay_ms as u64).min(16383))).expect("harness: valid max_ack_delay"));
+    let mut pto = Pto::default();
+    let mut now_us: u64 = 1_000_000;
+    // model
+    let mut deadline_us: Option<u64> = None;
+    let mut pending: u8 = 0;
+    // consecutive expiries since the last acknowledgement (RFC 9002 pto_count); the multiplier is kept
+    // by the caller of `Pto` (path.pto_backoff in s2n-quic-transport), mirrored here
+    let mut pto_count: u32 = 0;
+    let mut base_at_first_expiry: Option<u64> = None;
+    let mut max_consecutive = 0u32;
+    let mut expiries = 0u32;
+
+    ensure_that!(pto.transmissions() == 0 && !pto.is_armed(), "pto:initial", "a new Pto is armed or wants to transmit");
+
+    for (step, op) in c.ops.iter().enumerate() {
+        match *op {
+            PtoOp::Rtt { sample_us, ack_delay_us } => {
+                rtt.update_rtt(Duration::from_micros(ack_delay_us as u64), Duration::from_micros(sample_us as u64), ts(now_us), true, space);
+                base_at_first_expiry = None;
+            }
+            PtoOp::Arm { acked } => {
+                if acked {
+                    // RFC 9002 §6.2.1: "The PTO backoff factor is reset when an acknowledgment is received"
+                    pto_count = 0;
+                    base_at_first_expiry = None;
+                }
+                let backoff = 1u32 << pto_count;
+                let period = rtt.pto_period(backoff, space);
+                pto.update(ts(now_us), period);
+                let p = ns(period);
+                ensure_that!(p >= K_GRANULARITY_NS, "pto:period-below-granularity", "step {step}: PTO period {p} ns < kGranularity");
+                ensure_that!(p % 1000 == 0, "pto:period-resolution", "step {step}: PTO period {p} ns is not a whole number of microseconds");
+                if let Some(base) = base_at_first_expiry {
+                    // same estimates as when the first of the consecutive expiries was armed:
+                    // the armed period doubles with each consecutive expiry
+                    ensure_that!(p as u128 == (base as u128) << pto_count, "pto:period-not-doubled", "step {step}: after {pto_count} consecutive expiries the armed period is {p} ns, base {base} ns");
+                }
+                deadline_us = Some(now_us + p / 1000);
+                ensure_that!(
+                    pto.next_expiration().map(ts_micros) == deadline_us,
+                    "pto:armed-deadline",
+                    "step {step}: armed at {now_us} us with period {p} ns: deadline {:?}, expected {deadline_us:?}",
+                    pto.next_expiration()
+                );
+            }
+            PtoOp::Advance { us } => now_us += us as u64,
+            PtoOp::AdvanceToDeadline { rel_us } => {
+                if let Some(d) = deadline_us {
+                    let t = if rel_us >= 0 { d + rel_us as u64 } else { d.saturating_sub((-(rel_us as i64)) as u64) };
+                    now_us = now_us.max(t);
+                }
+            }
+            PtoOp::Timeout { in_flight } => {
+                let before = pto.transmissions();
+                let got = pto.on_timeout(in_flight, ts(now_us));
+                match deadline_us {
+                    None => {
+                        ensure_that!(got == Poll::Pending, "pto:expired-unarmed", "step {step}: on_timeout reported an expiry although the timer is not armed");
+                    }
+                    Some(d) => {
+                        if now_us >= d {
+                            ensure_that!(got == Poll::Ready(()), "pto:expiry-missed", "step {step}: deadline {d} us, now {now_us} us: on_timeout returned Pending");
+                        } else if d - now_us >= K_GRANULARITY_NS / 1000 {
+                            ensure_that!(got == Poll::Pending, "pto:expired-early", "step {step}: deadline {d} us, now {now_us} us: expiry reported {} us early (more than kGranularity)", d - now_us);
+                        } else {
+                            // less than kGranularity before the deadline: `Timestamp::has_elapsed` documents
+                            // that this already counts as elapsed ("any finer resolution would result in
+                            // excessive timer churn"); either answer is accepted
+                            obs.class("timeout-within-granularity");
+                        }
+                    }
+                }
+                if got.is_ready() {
+                    expiries += 1;
+                    // RFC 9002 §6.2.4: MUST send at least one ack-eliciting packet, MAY send up to two
+                    let n = pto.transmissions();
+                    ensure_that!((1..=2).contains(&n), "pto:probe-count", "step {step}: {n} probe transmissions requested on PTO expiry");
+                    // s2n's documented choice: two when packets are in flight, otherwise one
+                    ensure_that!(n == if in_flight { 2 } else { 1 }, "pto:probe-count-choice", "step {step}: {n} probes requested with packets_in_flight = {in_flight}");
+                    ensure_that!(!pto.is_armed(), "pto:armed-after-expiry", "step {step}: timer still armed after it expired");
+                    pending = n;
+                    deadline_us = None;
+                    obs.class(if n == 2 { "expiry-2-probes" } else { "expiry-1-probe" });
+                    // the caller doubles the backoff and re-arms (recovery::Manager::on_timeout)
+                    if base_at_first_expiry.is_none() {
+                        base_at_first_expiry = Some(ns(rtt.pto_period(1, space)));
+                    }
+                    if pto_count < 20 {
+                        pto_count += 1;
+                    }
+                    max_consecutive = max_consecutive.max(pto_count);
+                } else {
+                    ensure_that!(pto.transmissions() == before, "pto:pending-changed-state", "step {step}: on_timeout returned Pending but transmissions went from {before} to {}", pto.transmissions());
+                    ensure_that!(pto.is_armed() == deadline_us.is_some(), "pto:pending-changed-state", "step {step}: on_timeout returned Pending and changed the timer");
+                }
+            }
+            PtoOp::TransmitOnce => {
+                if pending > 0 {
+                    pto.on_transmit_once();
+                    pending -= 1;
+                }
+            }
+            PtoOp::Cancel => {
+                pto.cancel();
+                deadline_us = None;
+            }
+            PtoOp::ForceTransmit => {
+                pto.force_transmit();
+                if pending == 0 {
+                    pending = 1;
+                }
+            }
+        }
+        ensure_that!(pto.transmissions() == pending, "pto:transmissions", "step {step} {op:?}: {} transmissions pending, model {pending}", pto.transmissions());
+        ensure_that!(pto.is_armed() == deadline_us.is_some(), "pto:armed", "step {step} {op:?}: armed {}, model {deadline_us:?}", pto.is_armed());
+        ensure_that!(pto.next_expiration().map(ts_micros) == deadline_us, "pto:armed-deadline", "step {step} {op:?}: deadline {:?}, model {deadline_us:?}", pto.next_expiration());
+    }
+    obs.units = c.ops.len() as u64;
+    obs.nontrivial(max_consecutive >= 2);
+    obs.class_if(expiries > 0, "seq-with-expiry");
+    obs.class_if(max_consecutive >= 2, ">=2-consecutive-expiries");
+    obs.class_if(max_consecutive >= 4, ">=4-consecutive-expiries");
+    Ok(())
+}
+
+fn pto_strategy(_t: Tier) -> impl Strategy<Value = PtoCase> {
+    let op = prop_oneof![
+        2 => (prop_oneof![1u32..3000, 1u32..500_000, 1u32..10_000_000], prop_oneof![Just(0u32), 0u32..30_000]).prop_map(|(sample_us, ack_delay_us)| PtoOp::Rtt { sample_us, ack_delay_us }),
+        5 => prop::bool::weighted(0.25).prop_map(|acked| PtoOp::Arm { acked }),
+        2 => prop_oneof![0u32..2000, 0u32..3_000_000].prop_map(|us| PtoOp::Advance { us }),
+        6 => prop_oneof![3 => -2i32..=2, 2 => -1002i32..=-998, 2 => -3000i32..3000, 1 => 0i32..5_000_000].prop_map(|rel_us| PtoOp::AdvanceToDeadline { rel_us }),
+        7 => any::<bool>().prop_map(|in_flight| PtoOp::Timeout { in_flight }),
+        3 => Just(PtoOp::TransmitOnce),
+        1 => Just(PtoOp::Cancel),
+        1 => Just(PtoOp::ForceTransmit),
+    ];
+    (0u8..3, prop_oneof![Just(0u16), Just(25), 0u16..16384], prop::collection::vec(op, 1..60)).prop_map(|(space, max_ack_delay_ms, ops)| PtoCase { space, max_ack_delay_ms, ops })
+}
+
+// ---------------------------------------------------------------------------------------
 
 pub fn subs() -> Vec<Box<dyn SubCheck>> {
-    vec![]
+    vec![
+        Box::new(PropCheck::<RttCase, _> {
+            name: "rtt_estimator_ops",
+            cases: |t| t.pick(200_000, 5_000_000),
+            strategy: rtt_strategy,
+            oracle: rtt_oracle,
+            max_shrink_iters: 20_000,
+        }),
+        Box::new(PropCheck::<LossCase, _> {
+            name: "loss_detect",
+            cases: |t| t.pick(3_000_000, 75_000_000),
+            strategy: loss_strategy,
+            oracle: loss_oracle,
+            max_shrink_iters: 4_000,
+        }),
+        Box::new(PropCheck::<PtoCase, _> {
+            name: "pto_ops",
+            cases: |t| t.pick(200_000, 5_000_000),
+            strategy: pto_strategy,
+            oracle: pto_oracle,
+            max_shrink_iters: 20_000,
+        }),
+    ]
 }
 
 pub fn property() -> Property {
     Property {
         id: "C09",
-        rule: "",
-        assumptions: &[],
+        rule: "component level. rtt_estimator_ops: op sequences (1..50) of update_rtt (samples 0 ns .. 10 s absolute, or relative to min_rtt + ack_delay / \
+               min_rtt / smoothed_rtt ± few ns; ack delays 0 .. 1 s; handshake confirmed or not; all spaces), on_max_ack_delay, on_persistent_congestion, \
+               for_new_path and pto_period queries (backoff 0, powers of two, arbitrary) on RttEstimator; after every update the new state must be one of the \
+               outcomes RFC 9002 §5.2/§5.3/A.7 admits, computed in integer ns from the estimator's own previous state; after every op: min_rtt = min(samples), \
+               latest_rtt = last sample (>= 1 us), smoothed_rtt within the range of the adjusted samples, rttvar within the spread, pto_period = RFC §6.2.1 \
+               formula x backoff (>= 1 ms, doubling exactly), loss_time_threshold = max(9/8 max(srtt, latest), 1 ms). Non-trivial: the sequence contains a \
+               first sample, a sample below min_rtt + ack_delay (adjustment skipped) and a query with backoff >= 2. loss_detect: (pn, largest_acked = pn + 1.., \
+               time sent, time threshold, now at threshold ± 0..3 us / ± 1 ms / far, packet threshold = s2n's constant or 1..9) -> Lost / NotLostYet(loss time) \
+               must equal RFC 9002 §6.1 / A.10; non-trivial: distance within 1 of the packet threshold or now within 1 us of the time threshold. pto_ops: \
+               sequences of arm / advance (relative to the deadline) / on_timeout / transmit / cancel / force_transmit on Pto with periods from pto_period: \
+               deadline = now + period, expiry exactly as armed (up to the documented granularity), 1 or 2 probes per expiry, period = 2^k x base after k \
+               consecutive expiries; non-trivial: >= 2 consecutive expiries. Distinct = distinct generated cases.",
+        assumptions: &[
+            "RFC 9002 §5, §6.1, §6.2 and Appendix A.7/A.10 as transcribed in c09_recovery.rs (u128 ns) are the trusted base; kGranularity = 1 ms, kPacketThreshold = 3, kTimeThreshold = 9/8",
+            "weighted_average divides before multiplying (documented in the code): a result is accepted when it is <= the exact value and < weight (4 resp. 8) ns below it; \
+             the resulting accumulated drift of smoothed_rtt below the smallest adjusted sample is bounded by 56 ns (s' >= (7s + A − 56)/8), which the range check allows",
+            "pto_period is computed in whole microseconds (documented in the code): accepted when <= the RFC value and < 5 us below it (before the backoff multiplication)",
+            "RFC 9002 §5.3 latitude accepted: Initial-space ack delay may be ignored (MAY); max_ack_delay may or may not be applied before confirmation (SHOULD); at \
+             latest_rtt == min_rtt + ack_delay both subtracting (A.7) and not subtracting are accepted; before confirmation a sample whose adjustment is skipped may be \
+             ignored (MAY) - s2n also ignores the sample at equality, including every new minimum with ack_delay 0, which is accepted and counted as class ignored-unconfirmed-at-boundary",
+            "rttvar is updated before smoothed_rtt with the old smoothed_rtt (A.7, erratum 7539)",
+            "on_persistent_congestion: the next sample re-initialises min_rtt, smoothed_rtt and rttvar (RFC 9002 §5.2 SHOULD / permitted reset)",
+            "loss::detect is only called with pn < largest_acked (its documented precondition, enforced by a debug assertion); that packets at or above largest_acked are never \
+             declared lost is the caller's (recovery::Manager) obligation and is checked by the end-to-end monitor",
+            "Timestamp has 1 us resolution: loss time may be rounded down by < 1 us",
+            "Pto::on_timeout within less than kGranularity before the deadline may report either Pending or Ready (Timestamp::has_elapsed documents the 1 ms slack)",
+            "the PTO backoff multiplier itself lives in s2n-quic-transport (path.pto_backoff, recovery::Manager::on_timeout) and is not reachable from this crate: pto_ops mirrors \
+             the caller (backoff = 2^pto_count, reset on acknowledgement) and checks Pto + pto_period under it; the doubling of path.pto_backoff is checked end to end via pto_count",
+        ],
         subs: subs(),
         shards: 0,
     }
